@@ -256,3 +256,29 @@ pub fn work(ctx: &Ctx, rep: &mut Report) {
     // leave model and terminal untouched, parser state must follow the table)
     crate::mon::diffmon::work(ctx, rep, (8000, 150_000), (3, 4), false);
 }
+
+/// replay: all calls but the last build the prior state, the last one is the inert sequence
+pub fn replay(h: &History, rep: &mut Report) {
+    let Some((last, prior)) = h.calls.split_last() else { return };
+    let Call::FeedStr(seq) = last else { return };
+    if !model_inert(seq) {
+        return;
+    }
+    for per_char in [false, true] {
+        let res = guarded(|| {
+            let mut vt = h.build();
+            for c in prior {
+                match c {
+                    Call::FeedStr(s) => drop(vt.feed_str(s)),
+                    Call::Feed(s) => s.chars().for_each(|ch| vt.feed(ch)),
+                    Call::Resize(c, r) => drop(vt.resize(*c, *r)),
+                }
+            }
+            check_inert(&mut vt, seq, per_char)
+        });
+        if let Guarded::Done(Some(d)) = res {
+            rep.violation("C20", format!("inert sequence {:?} changed the terminal: {}", esc(seq), d), h);
+            return;
+        }
+    }
+}
